@@ -218,6 +218,15 @@ Parse(d) ==
        IF r.ok THEN [ok |-> TRUE, why |-> "", hl |-> HL(d), lenf |-> LenF(d), pkt |-> r.pkt]
        ELSE Fail(r.why)
 
+(* What a decoder decodes that derives the header length from the *announced* length        *)
+(* (<= 255 => 2 octets) instead of from the form present: for a 3-octet length announcing       *)
+(* <= 255 the body then starts two octets early.  Not part of the intended format; used only   *)
+(* to name the mechanism of a finding (signature C22/body-offset/long-form-small-length).       *)
+WrongOffsetParse(d) == ParseBody(d[4], SubSeq(d, 3, Len(d)))
+IsWrongOffsetDecode(d, pkt) ==
+  /\ Len(d) >= 4 /\ d[1] = 1 /\ LenF(d) <= 255
+  /\ WrongOffsetParse(d).ok /\ WrongOffsetParse(d).pkt = pkt
+
 -----------------------------------------------------------------------------
 (* Encoder *)
 EncBody(p) ==
@@ -312,10 +321,11 @@ Prop_C21(p) ==
 (* Short topic names: 2 octets <-> 16 bit id *)
 EncShort(s)  == s[1] * 256 + s[2]
 DecShort(id) == <<id \div 256, id % 256>>
-Prop_ShortBijection(ids) ==      \* ids: a set of ids closed under nothing in particular
-  /\ \A id \in ids : EncShort(DecShort(id)) = id /\ Len(DecShort(id)) = 2 /\ IsBytes(DecShort(id))
-  /\ \A id1, id2 \in ids : DecShort(id1) = DecShort(id2) => id1 = id2
-Prop_ShortBijectionNames(bs) ==  \* bs: a set of octets; all names over bs x bs
+Prop_ShortBijection(ids) ==      \* Enc o Dec = identity on ids (so Dec is injective on ids)
+  \A id \in ids : EncShort(DecShort(id)) = id /\ Len(DecShort(id)) = 2 /\ IsBytes(DecShort(id))
+Prop_ShortInjective(ids) ==      \* the same fact stated pairwise (quadratic: use a reduced range)
+  \A id1, id2 \in ids : DecShort(id1) = DecShort(id2) => id1 = id2
+Prop_ShortBijectionNames(bs) ==  \* Dec o Enc = identity on all names over bs x bs (Enc injective, Dec onto)
   \A a, b \in bs : DecShort(EncShort(<<a, b>>)) = <<a, b>> /\ EncShort(<<a, b>>) \in U16Range
 
 -----------------------------------------------------------------------------
